@@ -403,6 +403,7 @@ class SanitizeTableNameSpec(KernelSpec):
     def explore(self, ctx, ex, fn, inst, shape, inp, pre):
         from .envelope import sha_stubs
         self._rec = []
+        self._last_inp = inp
         ex.stubs = sha_stubs([sym("u8", f"h{i}") for i in range(32)], self._rec)
         st = ex.start(fn, [str_ref(inp["s"])], {}, pc=pre, env={})
         return ex.explore(st)
@@ -453,5 +454,7 @@ class SanitizeTableNameSpec(KernelSpec):
     def native_view(self, inst, shape, v, st):
         hashed = st.env.get("hashed") or []
         if hashed:
-            return {"modified": True, "hash_of_original": B(True), "result": None}
+            h, s = hashed[-1], self._last_inp["s"]
+            same = len(h) == len(s) and all(a.concrete and b.concrete and a.v == b.v for a, b in zip(h, s))
+            return {"modified": True, "hash_of_original": B(same), "result": None}
         return {"modified": False, "hash_of_original": B(True), "result": list(v.elems)}
